@@ -8,7 +8,7 @@ use serde_json::{Value, json};
 
 pub static PROP: Prop = Prop {
     id: "C14",
-    rule: "(a) histories of 5-40 operations over <= 6 variables decoded from a proptest choice vector: list / map / tuple / nested literals, aliasing by assignment, by storing inside another container, by passing to a mutating function and by capture in a mutating closure; every mutating and non-mutating function of list (push, pop, insert, remove, clear, extend, fill, resize, retain, reverse, sort, swap, transform, first, last, get, contains, is_empty, to_tuple), map (insert, remove, clear, extend, sort, get, keys, values, get_index, contains_key, update) and tuple; index and slice reads; index / slice / field assignment; `+`; copy; deep_copy; attempted mutation of tuples, strings and ranges; all variables are printed after every step and the history is compared with an abstract heap (cells with identity) in the reference interpreter. (b) laws over a 44-value boundary pool: all ordered pairs (== reflexive on NaN-free data and symmetric, != its negation, exactly one of < == > on numbers and on strings, <= / >= consistent) and all triples of numbers and of strings (transitivity of < and ==). (c) map-key identity: all pairs of hashable pool values x map paddings {0, 1, 8, 40}: contains_key(k2) after insert(k1) <=> k1 == k2, inserting both yields one entry <=> k1 == k2, independent of padding. (d) sorting: all lists of length 0..4 and sampled lists of length 5..7 over numbers, strings, mixed int / float and duplicates through list.sort, sort with key, map.sort: the output is an ordered permutation. Non-trivial: (a) an alias exists when a mutation happens; (b)-(d) every pair / triple / list counts once.",
+    rule: "(a) histories of 5-40 operations over <= 6 variables decoded from a proptest choice vector: list / map / tuple / nested literals, aliasing by assignment, by storing inside another container, by passing to a mutating function and by capture in a mutating closure; every mutating and non-mutating function of list (push, pop, insert, remove, clear, extend, fill, resize, retain, reverse, sort, swap, transform, first, last, get, contains, is_empty, to_tuple), map (insert, remove, clear, extend, sort, get, keys, values, get_index, contains_key, update) and tuple; index and slice reads; index / slice / field assignment; `+`; copy; deep_copy; attempted mutation of tuples, strings and ranges; all variables are printed after every step and the history is compared with an abstract heap (cells with identity) in the reference interpreter. (b) laws over a 50-value boundary pool: all ordered pairs (== reflexive on NaN-free data and symmetric, != its negation, exactly one of < == > on numbers and on strings, <= / >= consistent) and all triples of numbers and of strings (transitivity of < and ==). (c) map-key identity: all pairs of hashable pool values x map paddings {0, 1, 8, 40}: contains_key(k2) after insert(k1) <=> k1 == k2, inserting both yields one entry <=> k1 == k2, independent of padding. (d) sorting: all lists of length 0..4 and sampled lists of length 5..7 over numbers, strings, mixed int / float and duplicates through list.sort, sort with key, map.sort: the output is an ordered permutation. Non-trivial: (a) an alias exists when a mutation happens; (b)-(d) every pair / triple / list counts once.",
     assumptions: &[
         "known findings keyed by shape: C14-key-hash (an integer and the equal float as map keys), C14-order-2p53 (mixed int/float triples beyond 2^53)",
         "cyclic containers, negative indices and slice assignment beyond the list are not judged",
@@ -359,13 +359,14 @@ fn eval_history(prog: &[E], nontrivial: bool) -> Eval {
 // ---------------------------------------------------------------------------------------------
 // (b) laws over a value pool
 
-pub const POOL: [(&str, char); 44] = [
+pub const POOL: [(&str, char); 50] = [
     ("0", 'n'), ("1", 'n'), ("-1", 'n'), ("2", 'n'), ("2147483648", 'n'), ("9007199254740991", 'n'), ("9007199254740992", 'n'), ("9007199254740993", 'n'), ("9223372036854775807", 'n'), ("(-9223372036854775807 - 1)", 'n'),
     ("0.0", 'n'), ("-0.0", 'n'), ("1.0", 'n'), ("1.5", 'n'), ("0.5", 'n'), ("-1.5", 'n'), ("9007199254740992.0", 'n'), ("1.0e300", 'n'), ("(1.0 / 0.0)", 'n'), ("2.0", 'n'),
+    ("-1.0", 'n'), ("-2", 'n'), ("-2.0", 'n'), ("-9223372036854775808.0", 'n'),
     ("''", 's'), ("'a'", 's'), ("'b'", 's'), ("'ab'", 's'), ("'B'", 's'), ("'é'", 's'), ("'a '", 's'),
     ("null", 'o'), ("true", 'o'), ("false", 'o'),
     ("(0..3)", 'o'), ("(0..=2)", 'o'), ("(1..3)", 'o'),
-    ("(1, 2)", 'o'), ("(1, 2.0)", 'o'), ("('a',)", 'o'), ("()", 'o'), ("(1, (2, 3))", 'o'),
+    ("(1, 2)", 'o'), ("(1, 2.0)", 'o'), ("('a',)", 'o'), ("()", 'o'), ("(1, (2, 3))", 'o'), ("(1, -2)", 'o'), ("(1, -2.0)", 'o'),
     ("[1, 2]", 'o'), ("[1, 2.0]", 'o'), ("[]", 'o'),
     ("{a: 1}", 'o'), ("{a: 1.0}", 'o'), ("{}", 'o'),
 ];
